@@ -248,6 +248,7 @@ def gen_recipe(
     ns_choices=(None,),
     extra_text_values=True,
     upper_names=True,
+    prefix_choices=(None,),
 ):
     """Random recursive tree with `n` elements, strings interleaved by explicit choices (construction, no rejection)."""
     kind = ch.pick(kinds)
@@ -275,7 +276,8 @@ def gen_recipe(
             used.add(an.lower())
             attrs.append([None, None, an, attr_value(ch, attr_values, extra_text_values and api)])
         ns = ch.pick(ns_choices)
-        return {'k': 'e', 'name': name, 'ns': ns, 'prefix': None, 'attrs': attrs, 'ch': []}
+        prefix = ch.pick(prefix_choices) if ns else None
+        return {'k': 'e', 'name': name, 'ns': ns, 'prefix': prefix, 'attrs': attrs, 'ch': []}
 
     elems = [mk_elem() for _ in range(n)]
     ntop = 1
